@@ -46,6 +46,8 @@ type Job struct {
 	To        uint32   `json:"to,omitempty"`
 	Restarts  []uint32 `json:"restarts,omitempty"`
 	PerHeight bool     `json:"per_height,omitempty"`
+	// replay: the first attempt at every block fails at the statement containing RetryAll
+	RetryAll string `json:"retry_all,omitempty"`
 
 	// kill / fault: how to get to Plan.Block-1 ("replay" from scratch in this
 	// process, or "snapshot": copy SnapshotFrom to the database file), then
@@ -77,6 +79,9 @@ type Result struct {
 	FirstDump string            `json:"first_dump,omitempty"` // resume: dump before the node was started
 	Artifact1 bool              `json:"restart_artifact_first,omitempty"`
 	Hashes    map[uint32]string `json:"hashes,omitempty"` // per-height dump hashes
+
+	// replay with RetryAll: blocks whose first attempt was failed
+	RetryHits int `json:"retry_hits,omitempty"`
 
 	// fault
 	Fired     *Event    `json:"fired,omitempty"`
@@ -292,10 +297,17 @@ func childReplay(job *Job, res *Result) error {
 		if err != nil {
 			return nil, err
 		}
+		if job.RetryAll != "" && !job.PerHeight {
+			if err := UseHook(n, job.DBFile, job.DBMode); err != nil {
+				return nil, err
+			}
+			TheHook.RetryAll = job.RetryAll
+		}
 		if job.PerHeight {
 			if err := UseHook(n, job.DBFile, job.DBMode); err != nil {
 				return nil, err
 			}
+			TheHook.RetryAll = job.RetryAll
 			TheHook.AfterCommit = func(h uint32) {
 				if lines, err := chain.Dump(job.DBFile); err == nil {
 					lines, _ = Normalize(lines)
@@ -330,6 +342,7 @@ func childReplay(job *Job, res *Result) error {
 		return fmt.Errorf("sync to %d: %v", tip, err)
 	}
 	res.Synced = n.Sync.Synced
+	res.RetryHits = TheHook.RetryAllHits
 	if err := chain.CloseNode(n); err != nil {
 		return err
 	}
